@@ -86,3 +86,14 @@ Definition gen_accessor_private : bool :=
   && sk_has gen_skeleton "CompositeTransform.condition" "call:self._copy_with_transforms().condition_(*args, **kwargs)"
   && sk_has gen_skeleton "CompositeTransform.grid" "call:self._copy_with_transforms().grid_(grid)"
   && sk_has gen_skeleton "CompositeTransform._copy_with_transforms" "call:shallow_copy(transform)".
+
+(* DenseVectorFieldTransform.grid_ reads the old parameters on the OLD lattice with the OLD grid's own flags
+   (prev_grid.reshape(params.shape[2:]), no override), samples them on the data grid of the new grid and converts the
+   vectors to the new axes; __deepcopy__ gives the copy CLONES of the cached non-leaf buffers *)
+Definition gen_regrid_reads_old_lattice : bool :=
+  sk_before gen_skeleton "DenseVectorFieldTransform.grid_" "call:prev_grid.reshape(params.shape[2:])" "call:flow.sample(self.data_grid(grid))"
+  && sk_before gen_skeleton "DenseVectorFieldTransform.grid_" "call:flow.sample(self.data_grid(grid))" "call:flow.axes(grid_axes)"
+  && sk_before gen_skeleton "DenseVectorFieldTransform.grid_" "call:flow.axes(grid_axes)" "call:self.data_(flow.tensor())".
+Definition gen_deepcopy_clones : bool :=
+  sk_has gen_skeleton "SpatialTransform.__deepcopy__" "call:buf.detach().clone()"
+  && sk_before gen_skeleton "SpatialTransform.__deepcopy__" "call:buf.detach().clone()" "call:deepcopy(self.__dict__, memo)".
